@@ -17,7 +17,8 @@ EXPLANATION = (
     "flush source is polled only when a flush is pending, and every successful transport send is followed by flush_transport = true (or an explicit flush) "
     "before control returns to the select loop; (R4) version gates agree (shared with C12-R2); (R6) the proxy multiplexer's forwarding decisions in quantifier normal form; (R7) every request is "
     "answered: no accepting path of a broker request handler bypasses the send of its reply unless the requester is gone or gave no serial (QueryIntrospection may "
-    "instead be recorded as pending under its serial, to be answered when the queried connection replies). NOT decided: absence of deadlock or lost wake-ups, "
+    "instead be recorded as pending under its serial, to be answered when the queried connection replies); (R8) no state mutation in a client message "
+    "handler is control-dependent on whether the local waiter of a reply still exists (delivery of the result through its oneshot channel). NOT decided: absence of deadlock or lost wake-ups, "
     "bounded-FIFO behaviour, result consistency under schedules."
 )
 
@@ -71,6 +72,21 @@ def run(rep):
             rep.check(not bad, "C06-R7", b.def_, "request-is-answered:%s" % kind, "the handler of %s can return Ok without having sent %s (the requester is present and gave a serial): the client operation awaiting it never completes" % (kind, want),
                       line=b.span, detail={"reply_sites": len(ss), "requester-gone / no-serial edges": len(cut)})
     rep.floor("C06-R7", "request kinds with a reply", n7, 20)
+
+    # ---- R8 the client's mirror of broker-side state follows the broker's answer, not the local waiter ----------
+    n8 = 0
+    for d, b in sorted(prog.bodies.items()):
+        if not d.startswith("aldrin::client::Client::<T>::msg_"):
+            continue
+        for c in b.calls:
+            if c.name in ("insert", "remove") and c.args and any(re.match(r"^(upvar:)?self\.\w+$", x) for x in b.describe(c.args[0])):
+                n8 += 1
+                gs = [g for g in b.guard_strings(c.bb) if re.search(r"^(True|False|Ok|Err)=.*(oneshot::)?Sender::send\(|^(True|False)=Result::is_(ok|err)\(Sender::send\(|Sender::is_canceled\(", g) and "unbounded_send" not in g]
+                fld = sorted(b.describe(c.args[0]))[0]
+                rep.check(not gs, "C06-R8", b.root if hasattr(b, "root") else d, "mirror-independent-of-waiter:%s.%s" % (fld.replace("upvar:", ""), c.name),
+                          "the client records broker-side state (%s.%s) only if the local future still waits for the reply (%s): when that future was dropped the broker's view and the client's diverge and a later message for that entity stops the client" % (fld, c.name, gs[:1]),
+                          line=c.line, detail={"guards": gs})
+    rep.floor("C06-R8", "state mutations in client message handlers", n8, 32)
 
     # ---- R1 direction tables -----------------------------------------------------------------------
     rep.check(bd is not None and not binfo["wildcard"] and len(bd) >= 63, "C06-R1", bhm.def_, "broker-dispatch-exhaustive", "the broker's dispatch must name all message kinds without wildcard", detail={"kinds": len(bd or {})})
